@@ -413,7 +413,7 @@ struct SSGen {
             std::string body; for (auto c1 : ctx) { body += std::string("[") + c1 + ":"; for (auto a1 : ax) body += vo(std::string("count(") + c1 + "/" + a1 + ")") + ","; body += "]"; }
             perNode += "<xsl:if test=\"count(preceding::*) mod 3 = 1 or not(ancestor::*)\">" + o("axes-matrix", body) + "</xsl:if>"; }
         // grouping attributes computed at run time; a separator of two characters (at @v = 7) is an error raised inside xsl:number
-        if (on("num-groupsep")) perNode += o("num-groupsep", "<xsl:number value=\"(count(preceding::*) + 1) * 98765432101\" grouping-separator=\"{substring(',,', 1, 1 + number(@v = 7))}\" grouping-size=\"{1 + count(*) mod 4}\"/>|<xsl:number value=\"(count(preceding::*) + 1) * 987654321\" grouping-separator=\"'\" grouping-size=\"3\"/>|<xsl:number value=\"count(preceding::*) * 1234567 + 123456789012\" grouping-separator=\".\" grouping-size=\"2\" format=\"01\"/>");
+        if (on("num-groupsep")) perNode += o("num-groupsep", "<xsl:number value=\"(count(preceding::*) + 1) * 98765432101\" grouping-separator=\"{substring(',,', 1, 1 + number(@v = 7 or @v = 3))}\" grouping-size=\"{1 + count(*) mod 4}\"/>|<xsl:number value=\"(count(preceding::*) + 1) * 987654321\" grouping-separator=\"'\" grouping-size=\"3\"/>|<xsl:number value=\"count(preceding::*) * 1234567 + 123456789012\" grouping-separator=\".\" grouping-size=\"2\" format=\"01\"/>");
         // more sort languages in one transformation than the collator cache holds (10): the language comes from the node
         if (on("sort-manylang")) perNode += "<o f=\"sort-manylang\" n=\"{@id}\"><xsl:for-each select=\"*\"><xsl:sort select=\"@k\" lang=\"{substring('dafrenesitnlsvfiplptcshuroelbgtr', 1 + 2 * (count(preceding::*) mod 16), 2)}\" case-order=\"upper-first\"/><xsl:value-of select=\"@id\"/>,</xsl:for-each></o>";
         // many result tree fragments alive at the same time (arena blocks of the fragment allocators hold 10)
